@@ -1204,20 +1204,119 @@ func (x *TX) arrayList(a *ssa.Alloc, arr *types.Array, at ssa.Instruction) *Term
 	for i := range elems {
 		elems[i] = zeroTerm(arr.Elem())
 	}
+	// a table of structs written field by field ([]struct{…}{{a, b}, …})
+	st, _ := arr.Elem().Underlying().(*types.Struct)
+	fieldVals := make([]map[string]*Term, arr.Len())
 	for _, w := range ws {
 		if at != nil && !x.fi.canReach(w.in, at) {
 			continue
 		}
-		if len(w.path) != 1 || w.kind != "store" || !strings.HasPrefix(w.path[0], "[") || w.path[0] == "[*]" {
+		if len(w.path) < 1 || w.kind != "store" || !strings.HasPrefix(w.path[0], "[") || w.path[0] == "[*]" {
 			return unknown("array " + a.Name() + " written irregularly")
 		}
 		i, err := strconv.Atoi(strings.Trim(w.path[0], "[]"))
 		if err != nil || i < 0 || i >= len(elems) {
 			return unknown("array index")
 		}
-		elems[i] = x.Of(w.val, w.in)
+		switch {
+		case len(w.path) == 1:
+			elems[i] = x.Of(w.val, w.in)
+		case len(w.path) == 2 && st != nil:
+			if fieldVals[i] == nil {
+				fieldVals[i] = map[string]*Term{}
+			}
+			if _, dup := fieldVals[i][w.path[1]]; dup {
+				return unknown("array " + a.Name() + " element field written twice")
+			}
+			fieldVals[i][w.path[1]] = x.Of(w.val, w.in)
+		default:
+			return unknown("array " + a.Name() + " written irregularly")
+		}
+	}
+	for i, fv := range fieldVals {
+		if fv == nil {
+			continue
+		}
+		lit := &Term{Op: "lit", S: typeStr(arr.Elem()), T: arr.Elem()}
+		for j := 0; j < st.NumFields(); j++ {
+			if v, ok := fv[st.Field(j).Name()]; ok && !isZeroTerm(v) {
+				lit.F = append(lit.F, st.Field(j).Name())
+				lit.A = append(lit.A, v)
+			}
+		}
+		elems[i] = lit
 	}
 	return &Term{Op: "list", A: elems}
+}
+
+// instantiateCounter: t with loop counter ctr replaced by the constant k, and the
+// selections this makes decidable carried out (element k of a literal list, a field of a
+// literal).
+func instantiateCounter(t *Term, ctr string, k int) *Term {
+	if t == nil {
+		return nil
+	}
+	if t.Op == "ind" && t.S == ctr {
+		return &Term{Op: "const", S: strconv.Itoa(k), T: t.T}
+	}
+	if len(t.A) == 0 {
+		return t
+	}
+	nt := &Term{Op: t.Op, S: t.S, F: t.F, T: t.T, Fn: t.Fn}
+	for _, a := range t.A {
+		nt.A = append(nt.A, instantiateCounter(a, ctr, k))
+	}
+	switch nt.Op {
+	case "index":
+		base := nt.A[0]
+		if base.Op == "addr" || base.Op == "deref" {
+			base = base.A[0]
+		}
+		if i, ok := isIntConst(nt.A[1]); ok && base.Op == "list" && int(i) < len(base.A) && i >= 0 {
+			return base.A[i]
+		}
+	case "field":
+		base := nt.A[0]
+		for base.Op == "addr" || base.Op == "deref" {
+			base = base.A[0]
+		}
+		if base.Op == "lit" {
+			for i, fn := range base.F {
+				if fn == nt.S {
+					return base.A[i]
+				}
+			}
+			if nt.T != nil {
+				return zeroTerm(nt.T)
+			}
+		}
+	case "phi":
+		return phiOf(nt.A)
+	}
+	return nt
+}
+
+// tableCounter: does t select from a literal list by a loop counter (`LIST[#i0]…`)?
+// Returns the counter and the list's length.
+func tableCounter(t *Term) (string, int, bool) {
+	if t == nil {
+		return "", 0, false
+	}
+	if t.Op == "index" && len(t.A) == 2 && t.A[1].Op == "ind" {
+		base := t.A[0]
+		for base.Op == "addr" || base.Op == "deref" {
+			base = base.A[0]
+		}
+		if base.Op == "list" && len(base.A) > 0 {
+			return t.A[1].S, len(base.A), true
+		}
+	}
+	for _, a := range t.A {
+		if c, n, ok := tableCounter(a); ok {
+			return c, n, true
+		}
+	}
+	return "", 0, false
 }
 
 // ---------------------------------------------------------------------------
@@ -1471,6 +1570,11 @@ func (x *TX) sliceTerm(v *ssa.Slice, at ssa.Instruction) *Term {
 	}
 	isBuf := false
 	switch r := root.(type) {
+	case *ssa.Global:
+		// g[:] of a never-written package-level [N]byte
+		if n := x.p.zeroArrayGlobal(r); n > 0 && v.X == root && v.Low == nil && v.High == nil {
+			return &Term{Op: "buf", S: strconv.Itoa(n)}
+		}
 	case *ssa.MakeSlice:
 		if b, ok := r.Type().Underlying().(*types.Slice).Elem().Underlying().(*types.Basic); ok && b.Kind() == types.Uint8 {
 			isBuf = true
@@ -1576,6 +1680,9 @@ func (x *TX) callTerm(c *ssa.Call) *Term {
 		var args []*Term
 		for _, a := range common.Args {
 			args = append(args, x.Of(a, c))
+		}
+		if cv.Name() == "len" && len(args) == 1 && args[0].Op == "list" {
+			return &Term{Op: "const", S: strconv.Itoa(len(args[0].A))}
 		}
 		if cv.Name() == "append" && len(args) == 2 && isByteSlice(common.Args[0].Type()) && isByteSliceOrString(common.Args[1].Type()) {
 			return catOf(args[0], args[1])
@@ -1794,14 +1901,71 @@ func (p *Prog) zeroBufGlobal(g *ssa.Global) *Term {
 	return z
 }
 
+var zeroArrCache = map[*ssa.Global]int{}
+
+// zeroArrayGlobal: a package-level [N]byte of module code that no instruction ever writes
+// (no store to it or into it, every slice of it used read-only): its slices are N zero
+// bytes for the life of the process. Returns N, or 0.
+func (p *Prog) zeroArrayGlobal(g *ssa.Global) int {
+	if n, ok := zeroArrCache[g]; ok {
+		return n
+	}
+	zeroArrCache[g] = 0
+	if g.Pkg == nil || !p.isModulePkgPath(g.Pkg.Pkg.Path()) {
+		return 0
+	}
+	arr, ok := g.Type().(*types.Pointer).Elem().Underlying().(*types.Array)
+	if !ok {
+		return 0
+	}
+	if b, ok := arr.Elem().Underlying().(*types.Basic); !ok || b.Kind() != types.Uint8 {
+		return 0
+	}
+	for _, fn := range p.Funcs {
+		x := p.tx(fn)
+		for _, b := range fn.Blocks {
+			for _, in := range b.Instrs {
+				for _, op := range in.Operands(nil) {
+					if *op != ssa.Value(g) {
+						continue
+					}
+					switch in := in.(type) {
+					case *ssa.UnOp: // a copy of the array value
+					case *ssa.Slice:
+						if why := globalUseWrites(x, in, 0); why != "" {
+							return 0
+						}
+					case *ssa.IndexAddr:
+						if refs := in.Referrers(); refs != nil {
+							for _, r := range *refs {
+								if _, isLoad := r.(*ssa.UnOp); !isLoad {
+									return 0
+								}
+							}
+						}
+					default:
+						return 0 // stored to, address passed on, …
+					}
+				}
+			}
+		}
+	}
+	zeroArrCache[g] = int(arr.Len())
+	return zeroArrCache[g]
+}
+
 // counterShape: phi(c, phi+k) — a counting loop variable: start c, step k.
 func counterShape(phi *ssa.Phi) (start, step int, ok bool) {
-	if len(phi.Edges) != 2 {
+	if len(phi.Edges) < 2 {
 		return 0, 0, false
 	}
+	// one constant start; every other edge (the loop end and each `continue`) brings phi+k
 	haveStart, haveStep := false, false
 	for _, e := range phi.Edges {
 		if k, isC := constInt(e); isC {
+			if haveStart && k != start {
+				return 0, 0, false
+			}
 			start, haveStart = k, true
 			continue
 		}
@@ -1810,7 +1974,7 @@ func counterShape(phi *ssa.Phi) (start, step int, ok bool) {
 			return 0, 0, false
 		}
 		k, isC := constInt(bo.Y)
-		if !isC {
+		if !isC || (haveStep && k != step) {
 			return 0, 0, false
 		}
 		step, haveStep = k, true
